@@ -119,11 +119,15 @@ class InitMethod(MethodDescriptor):
         # status.
         if instance_metadata.owner is spec_cls:
             if instance_metadata.init_overflow_attr:
+                overflow_spec = instance_metadata.attrs[
+                    instance_metadata.init_overflow_attr
+                ]
                 getattr(
                     self, f"with_{instance_metadata.init_overflow_attr}"
                 )(  # TODO: avoid this
                     {
-                        key: value
+                        # (Copied like every other constructor argument.)
+                        key: value if overflow_spec.do_not_copy else protect_via_deepcopy(value)
                         for key, value in kwargs.items()
                         if key not in instance_metadata.attrs
                         or not instance_metadata.attrs[key].init
